@@ -23,6 +23,17 @@
 //!      0..=4 over 11 values whose neighbours are one rounding step apart (accepted exactly when ascending in the sense
 //!      w[0] <= w[1]), DiscreteDomain::push histories of length <= 4 (a value below the LAST breakpoint is refused and
 //!      changes nothing), every resulting map queried as in (b).
+//!  (wave 5, notes/w5_audit_C16.md) sizes, magnitudes, ties, long histories and shape classes:
+//!  (a3) deviation sets of 2 .. 4097 (70000) items in 15 value patterns x 5 ways of building, running-extreme oracle after
+//!      every push; (b3) breakpoint tables of 1 .. 4097 values in 9 families built by try_from / push / linear, signed
+//!      zeros, queries at every breakpoint, +-1 ulp, midpoints, +-inf, +-f64::MAX; (c3) clouds of 33 .. 4097 points, four
+//!      1100-step histories of accepted / refused appends and merges, self-merges and large index selections; (d3) all
+//!      distance clauses in 2D and 3D on coordinates scaled 2^-30 .. 2^27 and offset up to 1e8, deviation records;
+//!      (e3) curve deviations on 12 shapes (CW, slanted, reflex corner, hairpin, spur, single segment, closed three ways),
+//!      moved by 2^10 / 2^20 / 2^27, scaled by 2^-10 / 2^10, zigzags of up to 5000 edges, offsets 0, around 1e-6, 100, 1e4,
+//!      directions exactly on and within 1e-7 / 1e-9 of a tangent, interval bounds exactly on a station; (f3) mesh
+//!      deviations on an asymmetric box (is_solid both ways), tetrahedron, open rectangles of both windings, single and
+//!      hovering triangles, the same moved / scaled, a corrugated sheet of 131072 triangles, an open faceted cylinder.
 use super::Report;
 use crate::common::{DiscreteDomain, DistMode, Interval, SurfacePoint};
 use crate::geom2::{Curve2, Point2, UnitVec2, Vector2};
@@ -844,12 +855,881 @@ fn breakpoint_tables(r: &mut Report) {
     }
 }
 
+// ================================================================================================ wave 5 additions
+// Parameter-space audit (notes/w5_audit_C16.md): sizes past internal thresholds, coordinates far from the origin and
+// scaled shapes, exact ties, long operation sequences, shape classes the fixed examples avoid.
+static QUIET_PANICS: std::sync::atomic::AtomicBool = std::sync::atomic::AtomicBool::new(false);
+/// like `guarded`, and keeps the panic hook installed by `run` from printing the caught panic
+fn guarded5<T>(f: impl FnOnce() -> T) -> Option<T> {
+    QUIET_PANICS.store(true, std::sync::atomic::Ordering::SeqCst);
+    let out = std::panic::catch_unwind(std::panic::AssertUnwindSafe(f)).ok();
+    QUIET_PANICS.store(false, std::sync::atomic::Ordering::SeqCst);
+    out
+}
+fn near_tol(a: f64, b: f64, atol: f64) -> bool { (a - b).abs() <= atol + 1e-9 * a.abs().max(b.abs()) }
+
+// ------------------------------------------------------------------------------------------------ (a3) long deviation sets
+fn check_set_light(r: &mut Report, s: &SurfaceDeviationSet2, held: &[f64], bmax: f64, bmin: f64, babs: f64, how: &dyn Fn() -> String) {
+    r.check(s.len() == held.len(), "set: holds exactly what was constructed and pushed (count)", how);
+    if held.is_empty() {
+        r.check(s.max().is_none(), "set: no maximum when nothing is held", how);
+        r.check(s.min().is_none(), "set: no minimum when nothing is held", how);
+        r.check(s.symmetrical_zone_size() == 0.0, "set: symmetric zone of nothing is 0", how);
+        return;
+    }
+    match s.max() {
+        None => r.check(false, "set: reports the true maximum of everything held", how),
+        Some(m) => {
+            r.check(m.deviation == bmax, "set: reports the true maximum of everything held", how);
+            let k = m.surface.point.x as usize;
+            r.check(k < held.len() && held[k] == m.deviation, "set: the reported maximum is one of the held items", how);
+        }
+    }
+    match s.min() {
+        None => r.check(false, "set: reports the true minimum of everything held", how),
+        Some(m) => {
+            r.check(m.deviation == bmin, "set: reports the true minimum of everything held", how);
+            let k = m.surface.point.x as usize;
+            r.check(k < held.len() && held[k] == m.deviation, "set: the reported minimum is one of the held items", how);
+        }
+    }
+    r.check(s.symmetrical_zone_size() == 2.0 * babs, "set: symmetric zone is twice the largest |deviation| held", how);
+}
+
+/// (a3) sets of 2 .. 4097 (two patterns: 70000) deviations in 15 value patterns (monotone, constant, a single record at
+/// the first / middle / last position, records in the last two positions, zigzag, all negative, signed zeros, one-ulp
+/// steps, repeating ties), built by default()+push, new(all), new(half)+push, new(all but one)+push, default()+push_new:
+/// the extremes are compared with an independently maintained running maximum / minimum after EVERY push.
+fn long_deviation_sets(r: &mut Report) {
+    let patterns: [(&str, fn(usize, usize) -> f64); 15] = [
+        ("ascending", |i, _| i as f64),
+        ("descending", |i, _| -(i as f64)),
+        ("constant", |_, _| 0.25),
+        ("maximum first, ties after", |i, _| if i == 0 { 7.0 } else { (i % 5) as f64 * 0.5 }),
+        ("maximum in the middle", |i, n| if i == n / 2 { 1e9 } else { -((i % 3) as f64) }),
+        ("maximum last", |i, n| if i + 1 == n { 1e9 } else { (i % 4) as f64 }),
+        ("minimum first, ties after", |i, _| if i == 0 { -7.0 } else { -((i % 5) as f64) * 0.5 }),
+        ("minimum in the middle", |i, n| if i == n / 2 { -1e9 } else { (i % 3) as f64 }),
+        ("minimum last", |i, n| if i + 1 == n { -1e9 } else { -((i % 4) as f64) }),
+        ("maximum second to last, minimum last", |i, n| if i + 2 == n { 50.0 } else if i + 1 == n { -60.0 } else { ((i % 7) as f64) - 3.0 }),
+        ("zigzag growing", |i, _| if i % 2 == 0 { i as f64 } else { -(i as f64) }),
+        ("all negative, ascending", |i, n| i as f64 - n as f64 - 1.0),
+        ("all positive, descending", |i, n| (n - i) as f64),
+        ("signed zeros", |i, _| if i % 2 == 0 { 0.0 } else { -0.0 }),
+        ("one-ulp steps up from 1", |i, _| f64::from_bits(1.0f64.to_bits() + i as u64)),
+    ];
+    let sizes = [2usize, 3, 31, 32, 33, 64, 65, 100, 255, 256, 257, 1000, 4097];
+    let mut jobs: Vec<(usize, usize)> = vec![];
+    for (pi, _) in patterns.iter().enumerate() { for &n in sizes.iter() { jobs.push((pi, n)); } }
+    jobs.push((0, 70000)); jobs.push((5, 70000)); jobs.push((8, 70000));
+    for (pi, n) in jobs {
+        let (pname, pf) = patterns[pi];
+        let h: Vec<f64> = (0..n).map(|i| pf(i, n)).collect();
+        for build in 0..5usize {
+            if n > 5000 && build != 0 && build != 2 { continue; }
+            r.case();
+            let k0 = match build { 0 | 4 => 0, 1 => n, 2 => n / 2, _ => n - 1 };
+            let bname = match build { 0 => "default() then push", 1 => "new(all)", 2 => "new(first half) then push", 3 => "new(all but the last) then push", _ => "default() then push_new" };
+            let mut s = if build == 0 || build == 4 { SurfaceDeviationSet2::default() } else { SurfaceDeviationSet2::new((0..k0).map(|i| dev(i, h[i])).collect()) };
+            let (mut bmax, mut bmin, mut babs) = (f64::NEG_INFINITY, f64::INFINITY, 0.0f64);
+            for &v in h[..k0].iter() { bmax = bmax.max(v); bmin = bmin.min(v); babs = babs.max(v.abs()); }
+            for step in k0..=n {
+                let how = || format!("pattern '{}' (item i of n = {}), {}: checked after {} items", pname, n, bname, step);
+                check_set_light(r, &s, &h[..step], bmax, bmin, babs, &how);
+                if step < n {
+                    let v = h[step];
+                    if build == 4 { let d = dev(step, v); s.push_new(d.surface, d.deviation); } else { s.push(dev(step, v)); }
+                    bmax = bmax.max(v); bmin = bmin.min(v); babs = babs.max(v.abs());
+                }
+            }
+            if n <= 5000 {
+                let how = || format!("pattern '{}' (item i of n = {}), {}: final state", pname, n, bname);
+                check_set(r, &s, &h, &how);
+                // iter() and the slice view give the held items in order
+                let it: Vec<f64> = s.iter().map(|d| d.deviation).collect();
+                r.check(it == h || (it.len() == h.len() && it.iter().zip(h.iter()).all(|(a, b)| a == b)), "set: holds exactly what was constructed and pushed, in order", how);
+            }
+        }
+    }
+    // a copy is independent of its source: pushing a new record into one leaves the other's extremes alone
+    for n in [0usize, 1, 3, 40] {
+        r.case();
+        let h: Vec<f64> = (0..n).map(|i| ((i * 7) % 5) as f64 - 2.0).collect();
+        let a = SurfaceDeviationSet2::new((0..n).map(|i| dev(i, h[i])).collect());
+        let mut b = a.clone();
+        b.push(dev(n, 99.0)); b.push(dev(n + 1, -98.0));
+        let mut hb = h.clone(); hb.push(99.0); hb.push(-98.0);
+        let how = || format!("new({:?}), clone, push 99 and -98 into the clone", h);
+        check_set(r, &a, &h, &how);
+        check_set(r, &b, &hb, &how);
+    }
+    // the 3D instance
+    {
+        r.case();
+        let mut s = crate::metrology::SurfaceDeviationSet3::default();
+        let mut held: Vec<f64> = vec![];
+        for i in 0..100usize {
+            let v = if i % 2 == 0 { i as f64 * 0.5 } else { -(i as f64) };
+            s.push(crate::metrology::SurfaceDeviation3::new(SurfacePoint::new(Point3::new(i as f64, 0.0, 0.0), UnitVec3::new_unchecked(Vector3::new(0.0, 0.0, 1.0))), v));
+            held.push(v);
+            let bmax = held.iter().cloned().fold(f64::NEG_INFINITY, f64::max);
+            let bmin = held.iter().cloned().fold(f64::INFINITY, f64::min);
+            let babs = held.iter().cloned().fold(0.0f64, |a, v| a.max(v.abs()));
+            let how = || format!("3D set, default() then push {:?}", held);
+            r.check(s.max().map(|m| m.deviation) == Some(bmax), "set: reports the true maximum of everything held", how);
+            r.check(s.min().map(|m| m.deviation) == Some(bmin), "set: reports the true minimum of everything held", how);
+            r.check(s.symmetrical_zone_size() == 2.0 * babs && s.len() == held.len(), "set: symmetric zone is twice the largest |deviation| held", how);
+        }
+    }
+}
+
+// ------------------------------------------------------------------------------------------------ (b3) long breakpoint tables
+/// index of the LAST breakpoint not above x, found by walking from a hint (no bisection): None when x is below the first
+fn last_not_above(t: &[f64], hint: usize, x: f64) -> Option<usize> {
+    if t.is_empty() { return None; }
+    let mut j = hint.min(t.len() - 1);
+    while j + 1 < t.len() && t[j + 1] <= x { j += 1; }
+    while t[j] > x { if j == 0 { return None; } j -= 1; }
+    Some(j)
+}
+
+fn check_long_table(r: &mut Report, map: &DiscreteDomainTolMap, t: &[f64], built: &dyn Fn() -> String) {
+    let n = t.len();
+    let zone = |i: usize| Tolerance::new_unchecked(-(i as f64) - 1.0, i as f64 + 0.5);
+    let mut qs: Vec<(usize, f64)> = vec![(0, f64::NEG_INFINITY), (0, -f64::MAX), (0, f64::MAX), (0, f64::INFINITY)];
+    if n > 0 { qs.push((0, t[0] - 1.0)); qs.push((n - 1, t[n - 1] + 1.0)); qs.push((n - 1, t[n - 1] * 2.0 + 1e12)); }
+    for i in 0..n {
+        qs.push((i, t[i])); qs.push((i, ulp_up(t[i]))); qs.push((i, ulp_down(t[i])));
+        if i + 1 < n { qs.push((i, t[i] + 0.5 * (t[i + 1] - t[i]))); }
+    }
+    for &(hint, x) in qs.iter() {
+        r.case();
+        let how = || format!("{} (zone i = [-(i+1), i+0.5]), get({:?}) [query generated from breakpoint #{}]", built(), x, hint);
+        let Some(got) = guarded5(|| map.get(x)) else { r.check(false, "tolmap: get returns (no panic)", how); continue; };
+        let want = last_not_above(t, hint, x);
+        match (want, got) {
+            (None, g) => r.check(g.is_none(), "tolmap: no zone below the first breakpoint (or on an empty table)", how),
+            (Some(_), None) => r.check(false, "tolmap: zone of the greatest breakpoint not above x", how),
+            (Some(j), Some(z)) => {
+                // the zone identifies its index; with repeated breakpoints any of the tied zones
+                let i = (-z.lower - 1.0) as usize;
+                let ok = z.lower <= -1.0 && i < n && z.lower == zone(i).lower && z.upper == zone(i).upper && t[i] == t[j];
+                if x > t[n - 1] { r.check(ok, "tolmap: the last zone beyond the end", how); }
+                else if x == t[j] { r.check(ok, "tolmap: exactly on a breakpoint the zone of that breakpoint", how); }
+                else { r.check(ok, "tolmap: zone of the greatest breakpoint not above x", how); }
+            }
+        }
+        // the mechanism the map relies on: an index returned by the table is that of the greatest breakpoint not above x
+        if let Some(Some(i)) = guarded5(|| map.domain.index_of(x)) {
+            r.check(i < n && want.map_or(false, |j| t[i] == t[j]), "breakpoint table: index_of, when it answers, gives the greatest breakpoint not above x", how);
+        }
+    }
+}
+
+/// (b3) tables of 1 .. 4097 breakpoints in 9 families (integers, offset 1e6 with step 0.5, spacing 2^-40 at 1, negative,
+/// quadratic, runs of three equal breakpoints, one-ulp steps at 1e6, one gap of 1e9 in the middle, denormals), built by
+/// try_from, by default()+push and (uniform ones) by DiscreteDomain::linear in both bound orders; every breakpoint, its
+/// one-ulp neighbours, every midpoint, +-inf, +-f64::MAX, below the start and far beyond the end are queried and compared
+/// with a linear walk from the generating index.
+fn long_breakpoint_tables(r: &mut Report) {
+    let zone = |i: usize| Tolerance::new_unchecked(-(i as f64) - 1.0, i as f64 + 0.5);
+    let families: [(&str, fn(usize, usize) -> f64); 9] = [
+        ("breakpoint i = i", |i, _| i as f64),
+        ("breakpoint i = 1e6 + i/2", |i, _| 1e6 + 0.5 * i as f64),
+        ("breakpoint i = 1 + i * 2^-40", |i, _| 1.0 + i as f64 * (0.5f64).powi(40)),
+        ("breakpoint i = i - n", |i, n| i as f64 - n as f64),
+        ("breakpoint i = i^2 / 4", |i, _| 0.25 * (i * i) as f64),
+        ("breakpoint i = floor(i / 3)", |i, _| (i / 3) as f64),
+        ("breakpoint i = 1e6 advanced by i ulps", |i, _| f64::from_bits(1e6f64.to_bits() + i as u64)),
+        ("breakpoint i = i, +1e9 from the middle on", |i, n| if i < n / 2 { i as f64 } else { 1e9 + i as f64 }),
+        ("breakpoint i = i * 5e-324", |i, _| f64::from_bits(i as u64)),
+    ];
+    let sizes = [1usize, 2, 3, 5, 8, 31, 32, 33, 64, 65, 100, 257, 1000, 4097];
+    for (fname, ff) in families.iter() {
+        for &n in sizes.iter() {
+            let t: Vec<f64> = (0..n).map(|i| ff(i, n)).collect();
+            for build in 0..2usize {
+                let bname = if build == 0 { "try_from" } else { "default() then push each" };
+                let built = || format!("{} breakpoints, {}, built by {}", n, fname, bname);
+                let dom = if build == 0 { guarded5(|| DiscreteDomain::try_from(t.clone()).ok()).flatten() } else {
+                    guarded5(|| { let mut d = DiscreteDomain::default(); for &v in t.iter() { if d.push(v).is_err() { return None; } } Some(d) }).flatten()
+                };
+                let Some(dom) = dom else { r.check(false, "breakpoint table: an ascending finite table is accepted (equal neighbours included)", built); continue; };
+                r.check(dom.values() == &t[..] && dom.len() == n && dom.is_empty() == (n == 0), "breakpoint table: try_from keeps the values", built);
+                // zone lists of any other length are refused
+                for m in [0usize, n / 2, n + 7] { if m != n {
+                    r.check(DiscreteDomainTolMap::try_new(dom.clone(), (0..m).map(zone).collect()).is_err(), if m < n { "tolmap: a zone list shorter than the table is rejected" } else { "tolmap: a zone list longer than the table is rejected" }, || format!("{} with {} zones", built(), m));
+                } }
+                match DiscreteDomainTolMap::try_new(dom, (0..n).map(zone).collect()) {
+                    Ok(map) => check_long_table(r, &map, &t, &built),
+                    Err(_) => r.check(false, "tolmap: one zone per breakpoint is accepted", built),
+                }
+            }
+        }
+    }
+    // uniform tables as DiscreteDomain::linear delivers them (bounds in both orders); the table is read back, its
+    // ascending order is C17's clause and only a precondition here
+    for &(lo, hi) in [(0.0, 1.0), (-3.0, 5.0), (1e6, 1e6 + 1.0), (0.0, 1e-9), (-1e8, 1e8)].iter() {
+        for &n in [2usize, 3, 10, 33, 100, 1000, 4097].iter() {
+            for rev in [false, true] {
+                let (a, b) = if rev { (hi, lo) } else { (lo, hi) };
+                let Some(dom) = guarded5(|| DiscreteDomain::linear(a, b, n)) else { continue; };
+                let t: Vec<f64> = dom.values().to_vec();
+                if !(t.len() == n && t.iter().all(|v| v.is_finite()) && t.windows(2).all(|w| w[0] <= w[1])) { continue; }
+                let built = || format!("DiscreteDomain::linear({:?}, {:?}, {})", a, b, n);
+                match DiscreteDomainTolMap::try_new(dom, (0..n).map(zone).collect()) {
+                    Ok(map) => check_long_table(r, &map, &t, &built),
+                    Err(_) => r.check(false, "tolmap: one zone per breakpoint is accepted", built),
+                }
+            }
+        }
+    }
+    // signed zeros as breakpoints and as queries (-0.0 == 0.0: a table may hold either, in either order)
+    for t in [vec![0.0], vec![-0.0], vec![-0.0, 0.0], vec![0.0, -0.0], vec![0.0, 1.0], vec![-0.0, 1.0], vec![-1.0, 0.0, 1.0], vec![-1.0, -0.0, 1.0], vec![-1.0, -0.0, 0.0, 1.0], vec![-1.0, 0.0, -0.0, 0.0, 1.0]] {
+        let built = || format!("try_from({:?})", t);
+        let Some(Some(dom)) = guarded5(|| DiscreteDomain::try_from(t.clone()).ok()) else { r.check(false, "breakpoint table: an ascending finite table is accepted (equal neighbours included)", built); continue; };
+        let n = t.len();
+        let Ok(map) = DiscreteDomainTolMap::try_new(dom, (0..n).map(zone).collect()) else { r.check(false, "tolmap: one zone per breakpoint is accepted", built); continue; };
+        for x in [-1.0, -5e-324, -0.0, 0.0, 5e-324, 0.5, 1.0, 2.0] {
+            r.case();
+            let how = || format!("{} (zone i = [-(i+1), i+0.5]), get({:?})", built(), x);
+            let Some(got) = guarded5(|| map.get(x)) else { r.check(false, "tolmap: get returns (no panic)", how); continue; };
+            let bv = t.iter().cloned().filter(|b| *b <= x).fold(f64::NEG_INFINITY, f64::max);
+            match got {
+                None => r.check(bv == f64::NEG_INFINITY, "tolmap: zone of the greatest breakpoint not above x", how),
+                Some(z) => {
+                    let i = (-z.lower - 1.0) as usize;
+                    let ok = bv > f64::NEG_INFINITY && z.lower <= -1.0 && i < n && z.upper == zone(i).upper && t[i] == bv;
+                    if bv == f64::NEG_INFINITY { r.check(false, "tolmap: no zone below the first breakpoint (or on an empty table)", how); }
+                    else if x == bv { r.check(ok, "tolmap: exactly on a breakpoint the zone of that breakpoint", how); }
+                    else { r.check(ok, "tolmap: zone of the greatest breakpoint not above x", how); }
+                }
+            }
+        }
+    }
+    // constant map: every x, the ends of the range included
+    let c = ConstantTolMap::new(zone(3));
+    for x in [f64::NEG_INFINITY, -f64::MAX, -0.0, 0.0, 5e-324, f64::MAX, f64::INFINITY] {
+        r.case();
+        r.check(matches!(c.get(x), Some(z) if z.lower == zone(3).lower && z.upper == zone(3).upper), "tolmap: a constant map returns its zone for every x", || format!("x = {:?}", x));
+    }
+}
+
+// ------------------------------------------------------------------------------------------------ (c3) large clouds, long histories
+fn model_push(m: &mut Model, k: usize) {
+    let q = label_point(k);
+    m.p.push([q.x, q.y, q.z]);
+    if let Some(v) = m.n.as_mut() { v.push(arr(&label_normal(k))); }
+    if let Some(v) = m.c.as_mut() { v.push(label_color(k)); }
+}
+
+/// (c3) try_new with 33 .. 4097 points and normal / colour arrays of the same, shorter (by one, by half, empty) and longer
+/// (by one, doubled) length; from each of the 4 presence combinations a history of 1100 steps: an accepted append every
+/// step, a mismatching append (each wrong combination in turn) every 7th, an accepted and a refused merge of 0..4 points
+/// every 50th, index selections (all reversed; twice as long with repeats; of a selection) every 100th, a merge with a
+/// copy of itself at steps 300 and 900, compared with the three-array model after every operation.
+fn large_point_clouds(r: &mut Report) {
+    for &np in [33usize, 100, 1000, 4097].iter() {
+        let lens = |k: usize| -> Option<usize> { match k { 0 => None, 1 => Some(np), 2 => Some(np - 1), 3 => Some(np + 1), 4 => Some(np / 2), 5 => Some(0), _ => Some(2 * np) } };
+        for kn in 0..7usize { for kc in 0..7usize {
+            r.case();
+            let p: Vec<Point3> = (0..np).map(label_point).collect();
+            let n: Option<Vec<UnitVec3>> = lens(kn).map(|l| (0..l).map(label_normal).collect());
+            let c: Option<Vec<[u8; 3]>> = lens(kc).map(|l| (0..l).map(label_color).collect());
+            let how = || format!("try_new({} points, normals {:?}, colours {:?})", np, lens(kn), lens(kc));
+            let accept = kn <= 1 && kc <= 1;
+            let want = Model { p: p.iter().map(|q| [q.x, q.y, q.z]).collect(), n: n.as_ref().map(|v| v.iter().map(arr).collect()), c: c.clone() };
+            match PointCloud::try_new(p, n, c) {
+                Ok(pc) => {
+                    r.check(accept, "cloud: try_new rejects a normal / colour array whose length differs from points", how);
+                    if accept { r.check(observe(&pc) == want, "cloud: try_new keeps the given arrays", how); }
+                    lengths_equal(r, &pc, &how);
+                }
+                Err(_) => r.check(!accept, "cloud: try_new accepts arrays of equal length", how),
+            }
+        } }
+    }
+    for combo in 0..4usize {
+        let (hn, hc) = ((combo & 1) != 0, (combo & 2) != 0);
+        r.case();
+        let mut pc = PointCloud::empty(hn, hc);
+        let mut m = Model { p: vec![], n: if hn { Some(vec![]) } else { None }, c: if hc { Some(vec![]) } else { None } };
+        let mut label = 0usize;
+        let wrong = [(!hn, hc), (hn, !hc), (!hn, !hc)];
+        let mut broken = false;
+        for step in 1..=1100usize {
+            let l0 = label;
+            let how = || format!("empty(normals: {}, colours: {}) then the long history, step {} ({} labels used before it)", hn, hc, step, l0);
+            // accepted append
+            let k = label; label += 1;
+            let res = pc.append(label_point(k), if hn { Some(label_normal(k)) } else { None }, if hc { Some(label_color(k)) } else { None });
+            r.check(res.is_ok(), "cloud: append is accepted exactly when normal / colour presence matches the cloud", how);
+            model_push(&mut m, k);
+            if step % 7 == 0 {
+                let (wn, wc) = wrong[(step / 7) % 3];
+                let before = observe(&pc);
+                let res = pc.append(label_point(9_000_000), if wn { Some(label_normal(1)) } else { None }, if wc { Some(label_color(1)) } else { None });
+                r.check(res.is_err(), "cloud: append is accepted exactly when normal / colour presence matches the cloud", how);
+                r.check(observe(&pc) == before, "cloud: a rejected append changes nothing", how);
+            }
+            if step % 50 == 0 {
+                let cnt = (step / 50) % 5;
+                let (wn, wc) = wrong[(step / 50) % 3];
+                let (p, n, c, _) = make(8_000_000, cnt, wn, wc);
+                if let Ok(other) = PointCloud::try_new(p, n, c) {
+                    let before = observe(&pc);
+                    r.check(pc.merge(other).is_err(), "cloud: merge is accepted exactly when both clouds agree on the presence of normals and colours", how);
+                    r.check(observe(&pc) == before, "cloud: a rejected merge changes nothing", how);
+                }
+                let (p, n, c, om) = make(label, cnt, hn, hc);
+                label += cnt;
+                if let Ok(other) = PointCloud::try_new(p, n, c) {
+                    r.check(pc.merge(other).is_ok(), "cloud: merge is accepted exactly when both clouds agree on the presence of normals and colours", how);
+                    m.p.extend(om.p.iter().cloned());
+                    if let (Some(a), Some(b)) = (m.n.as_mut(), om.n.as_ref()) { a.extend(b.iter().cloned()); }
+                    if let (Some(a), Some(b)) = (m.c.as_mut(), om.c.as_ref()) { a.extend(b.iter().cloned()); }
+                    r.check(observe(&pc) == m, "cloud: an accepted merge appends exactly the other cloud's elements, in order", how);
+                }
+            }
+            if step == 300 || step == 900 {
+                let copy = pc.clone();
+                r.check(pc.merge(copy).is_ok(), "cloud: merge is accepted exactly when both clouds agree on the presence of normals and colours", how);
+                let (p2, n2, c2) = (m.p.clone(), m.n.clone(), m.c.clone());
+                m.p.extend(p2);
+                if let (Some(a), Some(b)) = (m.n.as_mut(), n2) { a.extend(b); }
+                if let (Some(a), Some(b)) = (m.c.as_mut(), c2) { a.extend(b); }
+                r.check(observe(&pc) == m, "cloud: an accepted merge appends exactly the other cloud's elements, in order", how);
+            }
+            let now = observe(&pc);
+            r.check(now == m, "cloud: the three arrays hold exactly the elements added so far", how);
+            lengths_equal(r, &pc, &how);
+            if now != m { broken = true; break; }
+            if step % 100 == 0 {
+                let l = m.p.len();
+                let lists: [Vec<usize>; 3] = [(0..l).rev().collect(), (0..2 * l).map(|i| (i * 7 + 3) % l).collect(), vec![l - 1; 40]];
+                for idx in lists.iter() {
+                    let Some(sel) = guarded5(|| pc.create_from_indices(idx)) else { r.check(false, "cloud: an index selection holds exactly the selected elements of every present array", how); continue; };
+                    let want = Model { p: idx.iter().map(|&i| m.p[i]).collect(), n: m.n.as_ref().map(|v| idx.iter().map(|&i| v[i]).collect()), c: m.c.as_ref().map(|v| idx.iter().map(|&i| v[i]).collect()) };
+                    r.check(observe(&sel) == want, "cloud: an index selection holds exactly the selected elements of every present array", how);
+                    r.check(observe(&pc) == m, "cloud: an index selection leaves the source unchanged", how);
+                    lengths_equal(r, &sel, &how);
+                    // a selection of the selection, then an append to it: the selection is a cloud of the same presence
+                    let idx2: Vec<usize> = (0..idx.len()).step_by(3).collect();
+                    if let Some(mut sel2) = guarded5(|| sel.create_from_indices(&idx2)) {
+                        let want2 = Model { p: idx2.iter().map(|&i| want.p[i]).collect(), n: want.n.as_ref().map(|v| idx2.iter().map(|&i| v[i]).collect()), c: want.c.as_ref().map(|v| idx2.iter().map(|&i| v[i]).collect()) };
+                        r.check(observe(&sel2) == want2, "cloud: an index selection holds exactly the selected elements of every present array", how);
+                        let res = sel2.append(label_point(5), if hn { Some(label_normal(5)) } else { None }, if hc { Some(label_color(5)) } else { None });
+                        r.check(res.is_ok(), "cloud: append is accepted exactly when normal / colour presence matches the cloud", how);
+                        lengths_equal(r, &sel2, &how);
+                    } else { r.check(false, "cloud: an index selection holds exactly the selected elements of every present array", how); }
+                }
+            }
+        }
+        if broken { continue; }
+        // a rigid motion in the middle of a history changes no length and later appends still line up
+        let iso = crate::geom3::Iso3::new(Vector3::new(1e3, -2.0, 0.5), Vector3::new(0.0, 0.0, 1e-8));
+        pc.transform(&iso);
+        let how = || format!("empty(normals: {}, colours: {}), long history, transform, append", hn, hc);
+        lengths_equal(r, &pc, &how);
+        r.check(pc.len() == m.p.len() && pc.normals().is_some() == hn && pc.colors().map(|c| c.to_vec()) == m.c, "cloud: a rigid transform keeps the number of points, the presence of normals and the colours", how);
+        let res = pc.append(label_point(1), if hn { Some(label_normal(1)) } else { None }, if hc { Some(label_color(1)) } else { None });
+        r.check(res.is_ok() && pc.len() == m.p.len() + 1, "cloud: append is accepted exactly when normal / colour presence matches the cloud", how);
+        lengths_equal(r, &pc, &how);
+    }
+}
+
+// ------------------------------------------------------------------------------------------------ (d3) distances: scales, offsets, 2D
+/// every clause of a directed distance on one pair of end points and one (optional) direction; `$what` labels the family
+macro_rules! distance_clauses {
+    ($r:expr, $Dist:ident, $a:expr, $b:expr, $dir:expr, $what:expr) => {{
+        let (a, b, dir) = ($a, $b, $dir);
+        $r.case();
+        let how = || format!("{}::new({:?}, {:?}, {:?}) [{}]", stringify!($Dist), a.coords.as_slice(), b.coords.as_slice(), dir.map(|d| d.into_inner().as_slice().to_vec()), $what);
+        let d = $Dist::new(a, b, dir);
+        let w = b - a;
+        let len = w.norm();
+        let cmax = a.coords.amax().max(b.coords.amax());
+        let tol = 1e-12 * len;
+        $r.check(d.a == a && d.b == b, "distance: keeps its end points", how);
+        if let Some(u) = dir { $r.check(d.direction == u, "distance: keeps the given direction", how); }
+        let u = d.direction.into_inner();
+        let proj: f64 = u.iter().zip(w.iter()).map(|(x, y)| x * y).sum();
+        $r.check((d.value() - proj).abs() <= tol, "distance: value equals the projection of b-a on the direction", || format!("{}: value {:e}, projection {:e}", how(), d.value(), proj));
+        if dir.is_none() {
+            $r.check((d.value() - len).abs() <= tol && ((u * len) - w).norm() <= 1e-12 * len, "distance: the default direction points from a to b, the value is the full distance", || format!("{}: value {:e}, |b-a| {:e}", how(), d.value(), len));
+        }
+        let rev = d.reversed();
+        $r.check(rev.a == b && rev.b == a, "distance: reversal swaps the end points", how);
+        $r.check((rev.direction.into_inner() + u).norm() <= 1e-15, "distance: reversal flips the direction", how);
+        $r.check((rev.value() - d.value()).abs() <= tol, "distance: value is unchanged by reversal", || format!("{}: value {:e}, reversed {:e}", how(), d.value(), rev.value()));
+        let back = rev.reversed();
+        $r.check(back.a == a && back.b == b && (back.value() - d.value()).abs() <= tol, "distance: reversing twice gives the original", how);
+        let c = d.center();
+        let mid = a + w * 0.5;
+        $r.check((c.point - mid).norm() <= 1e-12 * len + 8.0 * f64::EPSILON * cmax && c.normal == d.direction, "distance: center is the mid point with the distance's direction", || format!("{}: center {:?}", how(), c.point.coords.as_slice()));
+    }};
+}
+
+/// (d3) the integer end points of (d) scaled by 2^-30, 2^-20, 2^20 and 2^27 (coordinates 1e-9 .. 1e9), end points offset
+/// by 1e3, 1e6 and 1e8 at separations 1e-3 .. 1 and offset by 1 at separations 1e-9 and 1e-12, in 3D and in 2D, with the
+/// default and every given direction: all clauses of (d) with tolerance 1e-12 of the separation.
+fn scaled_and_offset_distances(r: &mut Report) {
+    let pts3 = [Point3::new(0.0, 0.0, 0.0), Point3::new(1.0, 0.0, 0.0), Point3::new(-2.0, 3.0, 1.0), Point3::new(4.0, -1.0, 2.0), Point3::new(0.5, 0.25, -8.0)];
+    let dirs3 = [Vector3::new(1.0, 0.0, 0.0), Vector3::new(0.0, -1.0, 0.0), Vector3::new(0.0, 0.0, 1.0), Vector3::new(0.6, 0.8, 0.0), Vector3::new(0.0, -0.6, 0.8),
+        Vector3::new(1.0, 1.0, 1.0), Vector3::new(-1.0, 2.0, -2.0), Vector3::new(3.0, 0.0, -4.0), Vector3::new(-1.0, -1.0, 0.0)];
+    let pts2 = [Point2::new(0.0, 0.0), Point2::new(3.0, -4.0), Point2::new(-1.0, 0.5), Point2::new(2.0, 2.0)];
+    let dirs2 = [Vector2::new(1.0, 0.0), Vector2::new(0.0, -1.0), Vector2::new(0.6, 0.8), Vector2::new(-1.0, 1.0), Vector2::new(-5.0, -12.0)];
+    let scales = [(0.5f64).powi(30), (0.5f64).powi(20), 1.0, (2.0f64).powi(20), (2.0f64).powi(27)];
+    for &sc in scales.iter() {
+        let what = format!("integer end points scaled by {:e}", sc);
+        for a in pts3.iter() { for b in pts3.iter() { for k in 0..=dirs3.len() {
+            let dir = if k == 0 { None } else { Some(UnitVec3::new_normalize(dirs3[k - 1])) };
+            if dir.is_none() && a == b { continue; }
+            distance_clauses!(r, Distance3, Point3::from(a.coords * sc), Point3::from(b.coords * sc), dir, what);
+        } } }
+        for a in pts2.iter() { for b in pts2.iter() { for k in 0..=dirs2.len() {
+            let dir = if k == 0 { None } else { Some(UnitVec2::new_normalize(dirs2[k - 1])) };
+            if dir.is_none() && a == b { continue; }
+            distance_clauses!(r, Distance2, Point2::from(a.coords * sc), Point2::from(b.coords * sc), dir, what);
+        } } }
+    }
+    let offs3 = [Vector3::new(1.0, 1.0, 1.0), Vector3::new(1.0, -0.5, 0.25), Vector3::new(-0.75, 0.0, 1.0)];
+    let offs2 = [Vector2::new(1.0, 1.0), Vector2::new(-0.5, 0.75), Vector2::new(0.3, -0.9)];
+    for &(off, ref seps) in [(1.0, vec![1e-9, 1e-12]), (1e3, vec![1e-3, 1.0]), (1e6, vec![1e-3, 1.0]), (1e8, vec![1e-3, 1e-2, 0.1, 1.0])].iter() {
+        for &s in seps.iter() { for sign in [1.0, -1.0] {
+            let what = format!("end points offset by {:e}, separation {:e}", off, s);
+            for o in offs3.iter() { for v in dirs3.iter() {
+                let a = Point3::from(o * off);
+                let b = a + v.normalize() * (s * sign);
+                for k in 0..=dirs3.len() {
+                    let dir = if k == 0 { None } else { Some(UnitVec3::new_normalize(dirs3[k - 1])) };
+                    distance_clauses!(r, Distance3, a, b, dir, what);
+                }
+            } }
+            for o in offs2.iter() { for v in dirs2.iter() {
+                let a = Point2::from(o * off);
+                let b = a + v.normalize() * (s * sign);
+                for k in 0..=dirs2.len() {
+                    let dir = if k == 0 { None } else { Some(UnitVec2::new_normalize(dirs2[k - 1])) };
+                    distance_clauses!(r, Distance2, a, b, dir, what);
+                }
+            } }
+        } }
+    }
+    // a deviation record reconstructs its measured point: reference + direction * value, on either side, near and far
+    let devs = [-1e4, -1.0, -1e-7, -0.0, 0.0, 1e-7, 0.5, 3.0, 1e4];
+    for &off in [0.0, 1e3, 1e6].iter() {
+        for p in pts2.iter() { for v in dirs2.iter() { for &d in devs.iter() {
+            r.case();
+            let q = Point2::from(p.coords + Vector2::new(off, -off));
+            let n = UnitVec2::new_normalize(*v);
+            let sd = SurfaceDeviation2::new(SurfacePoint::new(q, n), d);
+            let ap = sd.actual_point();
+            let want = Point2::new(q.x + n.x * d, q.y + n.y * d);
+            r.check(sd.surface.point == q && sd.surface.normal == n && sd.deviation.to_bits() == d.to_bits() && (ap - want).norm() <= 1e-12 * d.abs() + 8.0 * f64::EPSILON * (off + 10.0),
+                    "deviation record: keeps reference, direction and value; actual_point() is reference + direction * value", || format!("reference {:?}, direction {:?}, value {:?}: actual_point {:?}", q.coords.as_slice(), [n.x, n.y], d, ap.coords.as_slice()));
+        } } }
+        for p in pts3.iter() { for v in dirs3.iter() { for &d in devs.iter() {
+            r.case();
+            let q = Point3::from(p.coords + Vector3::new(off, -off, off));
+            let n = UnitVec3::new_normalize(*v);
+            let sd = crate::metrology::SurfaceDeviation3::new(SurfacePoint::new(q, n), d);
+            let ap = sd.actual_point();
+            let want = Point3::new(q.x + n.x * d, q.y + n.y * d, q.z + n.z * d);
+            r.check(sd.surface.point == q && sd.surface.normal == n && sd.deviation.to_bits() == d.to_bits() && (ap - want).norm() <= 1e-12 * d.abs() + 8.0 * f64::EPSILON * (off + 10.0),
+                    "deviation record: keeps reference, direction and value; actual_point() is reference + direction * value", || format!("reference {:?}, direction {:?}, value {:?}: actual_point {:?}", q.coords.as_slice(), arr(&n), d, ap.coords.as_slice()));
+        } } }
+    }
+}
+
+// ------------------------------------------------------------------------------------------------ (e3) curve deviations: shapes, scales, offsets
+struct Closest2 { point: Point2, dist: f64, /// (edge, foot) of every edge that attains the closest distance (numerically)
+    attain: Vec<(usize, Point2)>, at_vertex: bool, unique: bool, length_along: f64 }
+
+/// brute force over every edge; `unique` is false when two curve points further than 1e-9 apart are (nearly) equally close
+fn closest_on_polyline5(v: &[Point2], p: &Point2, atol: f64) -> Closest2 {
+    let mut cand: Vec<(Point2, f64, f64)> = vec![]; // foot, distance, length along
+    let mut acc = 0.0;
+    for i in 0..v.len() - 1 {
+        let e = v[i + 1] - v[i];
+        let t = ((p - v[i]).dot(&e) / e.dot(&e)).clamp(0.0, 1.0);
+        let q = v[i] + e * t;
+        cand.push((q, (p - q).norm(), acc + e.norm() * t));
+        acc += e.norm();
+    }
+    let mut bi = 0;
+    for i in 0..cand.len() { if cand[i].1 < cand[bi].1 { bi = i; } }
+    let best = cand[bi].1;
+    let slack = 1e-12 + atol + 1e-7 * best;
+    let unique = (0..cand.len()).filter(|&i| cand[i].1 <= best + slack).all(|i| (cand[i].0 - cand[bi].0).norm() <= 1e-9 + atol);
+    let attain: Vec<(usize, Point2)> = (0..cand.len()).filter(|&i| cand[i].1 <= best + 1e-13 + atol).map(|i| (i, cand[i].0)).collect();
+    let at_vertex = v.iter().any(|q| (q - cand[bi].0).norm() <= 1e-9 + atol);
+    Closest2 { point: cand[bi].0, dist: best, attain, at_vertex, unique, length_along: cand[bi].2 }
+}
+
+/// the clauses of a curve deviation against the brute-force oracle; false when the measured point has no unique closest point
+fn check_deviation5(r: &mut Report, name: &str, verts: &[Point2], dv: &SurfaceDeviation2, p: &Point2, vmax: f64, via: &str) -> bool {
+    let atol = 16.0 * f64::EPSILON * (vmax + p.x.abs().max(p.y.abs()));
+    let c = closest_on_polyline5(verts, p, atol);
+    if !c.unique { return false; }
+    let how = || format!("{} [{} vertices, first ({:?},{:?}) (...) last ({:?},{:?})], measured point ({:?}, {:?}) (closest distance {:e}) via {}: reference ({:?}, {:?}), direction ({:?}, {:?}), value {:?}",
+        name, verts.len(), verts[0].x, verts[0].y, verts[verts.len() - 1].x, verts[verts.len() - 1].y, p.x, p.y, c.dist, via,
+        dv.surface.point.x, dv.surface.point.y, dv.surface.normal.x, dv.surface.normal.y, dv.deviation);
+    let ptol = 1e-12 + atol + 1e-13 * c.dist;
+    r.check(c.attain.iter().any(|(_, q)| (dv.surface.point - q).norm() <= ptol), "curve deviation: the reference point is the closest point of the nominal curve", how);
+    r.check(near(dv.surface.normal.norm(), 1.0), "curve deviation: the direction is a unit vector", how);
+    if c.dist < 1e-6 && c.at_vertex {
+        r.check((dv.deviation.abs() - c.dist).abs() < 1e-6 + atol, "curve deviation: within 1e-6 of a vertex the magnitude is within 1e-6 of the closest distance", how);
+    } else {
+        r.check(near_tol(dv.deviation.abs(), c.dist, atol + 1e-12), "curve deviation: magnitude equals the closest distance", how);
+        let rec = dv.surface.point + dv.surface.normal.into_inner() * dv.deviation;
+        r.check((rec - p).norm() <= ptol + 1e-9 * c.dist, "curve deviation: reference + direction * value reconstructs the measured point", how);
+        r.check((dv.actual_point() - p).norm() <= ptol + 1e-9 * c.dist, "curve deviation: actual_point() reconstructs the measured point", how);
+    }
+    let mut sides = vec![];
+    for &(i, q) in c.attain.iter() {
+        let e = (verts[i + 1] - verts[i]).normalize();
+        sides.push((p - q).dot(&Vector2::new(e.y, -e.x)));
+    }
+    let tiny = 1e-11 * c.dist + 4.0 * atol;
+    if sides.iter().all(|&s| s > tiny) { r.check(dv.deviation > 0.0, "curve deviation: positive on the outward-normal side", how); }
+    if sides.iter().all(|&s| s < -tiny) { r.check(dv.deviation < 0.0, "curve deviation: negative on the side opposite to the normal", how); }
+    true
+}
+
+/// measured points of a polyline: off two interior feet of every listed edge on both sides, and all around every listed vertex
+fn curve_points5(v: &[Point2], edges: &[usize], verts: &[usize], dists: &[f64]) -> Vec<Point2> {
+    let mut pts = vec![];
+    for &i in edges.iter() {
+        let e = (v[i + 1] - v[i]).normalize();
+        let n = Vector2::new(e.y, -e.x);
+        for f in [0.375, 0.5] {
+            let foot = v[i] + (v[i + 1] - v[i]) * f;
+            for &d in dists.iter() { for s in [1.0, -1.0] { if d == 0.0 && s < 0.0 { continue; } pts.push(foot + n * (d * s)); } }
+        }
+    }
+    // 4 axis directions (exactly tangent to an axis-aligned edge), 10 oblique ones, and 16 within 1e-7 / 1e-9 of an axis
+    // direction on either side (just off the tangent of an axis-aligned edge)
+    let mut around = vec![(1.0, 0.0), (0.0, 1.0), (-1.0, 0.0), (0.0, -1.0), (0.6, 0.8), (0.8, 0.6), (-0.6, 0.8), (-0.8, 0.6), (0.6, -0.8), (0.8, -0.6), (-0.6, -0.8), (-0.8, -0.6), (0.28, 0.96), (-0.96, -0.28)];
+    for t in [1e-7, 1e-9] { for s in [1.0, -1.0] { for a in [1.0, -1.0] { around.push((a, s * t)); around.push((s * t, a)); } } }
+    for &k in verts.iter() { for &(x, y) in around.iter() { for &d in dists.iter() { pts.push(v[k] + Vector2::new(x, y) * d); } } }
+    pts
+}
+
+fn run_curve_family(r: &mut Report, name: &str, input: &[Point2], tol: f64, force_closed: bool, dists: &[f64], sample: Option<&[usize]>) {
+    let Some(Ok(curve)) = guarded5(|| Curve2::from_points(input, tol, force_closed)) else { r.check(false, "curve deviation: the nominal curve can be built", || name.to_string()); return; };
+    let verts: Vec<Point2> = curve.points().to_vec();
+    let vmax = verts.iter().fold(0.0f64, |a, q| a.max(q.x.abs()).max(q.y.abs()));
+    let atol = 16.0 * f64::EPSILON * vmax;
+    let all_edges: Vec<usize> = (0..verts.len() - 1).collect();
+    let all_verts: Vec<usize> = (0..verts.len()).collect();
+    let pts = match sample { None => curve_points5(&verts, &all_edges, &all_verts, dists), Some(s) => curve_points5(&verts, s, s, dists) };
+    let mut kept: Vec<Point2> = vec![];
+    for p in pts.iter() {
+        let Some(dv) = guarded5(|| point_curve2_deviation(&curve.at_closest_to_point(p), p)) else { r.check(false, "curve deviation: the deviation of a finite point is returned (no panic)", || format!("{} point ({:?}, {:?})", name, p.x, p.y)); continue; };
+        if check_deviation5(r, name, &verts, &dv, p, vmax, "point_curve2_deviation(at_closest_to_point(p), p)") { r.case(); kept.push(*p); }
+    }
+    let Some(set) = guarded5(|| line_surface_deviations(&curve, &kept, None)) else { r.check(false, "curve deviation: the deviation of a finite point is returned (no panic)", || name.to_string()); return; };
+    r.case();
+    r.check(set.len() == kept.len(), "line deviations: one deviation per measured point without an interval", || name.to_string());
+    if set.len() == kept.len() && !kept.is_empty() {
+        for (i, p) in kept.iter().enumerate() { check_deviation5(r, name, &verts, &set[i], p, vmax, "line_surface_deviations(.., None)"); }
+        let held: Vec<f64> = (0..set.len()).map(|i| set[i].deviation).collect();
+        let bmax = held.iter().cloned().fold(f64::NEG_INFINITY, f64::max);
+        let bmin = held.iter().cloned().fold(f64::INFINITY, f64::min);
+        let babs = held.iter().cloned().fold(0.0f64, |a, v| a.max(v.abs()));
+        r.check(set.max().map(|m| m.deviation) == Some(bmax) && set.min().map(|m| m.deviation) == Some(bmin) && set.symmetrical_zone_size() == 2.0 * babs,
+                "line deviations: the returned set reports the true extremes of its contents", || name.to_string());
+    }
+    // interval filter against the brute-force length along the curve (points whose length is within 1e-6 of a bound, or
+    // at the seam of a closed curve, are left out of the comparison)
+    let total: f64 = (0..verts.len() - 1).map(|i| (verts[i + 1] - verts[i]).norm()).sum();
+    for &(flo, fhi) in [(0.1, 0.6), (0.55, 0.2), (0.0, 1.0), (0.9, 2.0)].iter() {
+        let (lo, hi) = (flo * total * 1.0009765625, fhi * total * 0.9990234375);
+        let iv = Interval::new(lo, hi);
+        let (lo, hi) = (lo.min(hi), lo.max(hi));
+        let mut sel: Vec<Point2> = vec![]; let mut expect = 0usize;
+        for p in kept.iter() {
+            let atol = 16.0 * f64::EPSILON * (vmax + p.x.abs().max(p.y.abs()));
+            let c = closest_on_polyline5(&verts, p, atol);
+            let l = c.length_along;
+            if c.at_vertex && (c.point - verts[0]).norm() <= 1e-9 + atol { continue; }
+            if (l - lo).abs() < 1e-6 + atol || (l - hi).abs() < 1e-6 + atol { continue; }
+            sel.push(*p);
+            if lo <= l && l <= hi { expect += 1; }
+        }
+        r.case();
+        let Some(set) = guarded5(|| line_surface_deviations(&curve, &sel, Some(iv))) else { continue; };
+        r.check(set.len() == expect, "line deviations: exactly the points whose closest station lies in the interval are kept", || format!("{} interval of lengths [{:?}, {:?}] (bounds given as ({:?}, {:?})): {} kept, {} expected of {}", name, lo, hi, flo * total, fhi * total, set.len(), expect, sel.len()));
+    }
+}
+
+fn curve_shapes(r: &mut Report) {
+    let p2 = |x: f64, y: f64| Point2::new(x, y);
+    let base: Vec<(&str, Vec<Point2>, bool)> = vec![
+        ("CCW square", vec![p2(0.0, 0.0), p2(4.0, 0.0), p2(4.0, 4.0), p2(0.0, 4.0), p2(0.0, 0.0)], false),
+        ("CW square", vec![p2(0.0, 0.0), p2(0.0, 4.0), p2(4.0, 4.0), p2(4.0, 0.0), p2(0.0, 0.0)], false),
+        ("CCW 3-4-5 triangle", vec![p2(0.0, 0.0), p2(4.0, 0.0), p2(4.0, 3.0), p2(0.0, 0.0)], false),
+        ("CCW rectangle 6 x 2", vec![p2(0.0, 0.0), p2(6.0, 0.0), p2(6.0, 2.0), p2(0.0, 2.0), p2(0.0, 0.0)], false),
+        ("CCW L-shaped hexagon (reflex corner)", vec![p2(0.0, 0.0), p2(4.0, 0.0), p2(4.0, 2.0), p2(2.0, 2.0), p2(2.0, 4.0), p2(0.0, 4.0), p2(0.0, 0.0)], false),
+        ("open hairpin (gap 0.5)", vec![p2(0.0, 0.0), p2(4.0, 0.0), p2(4.0, 0.5), p2(0.0, 0.5)], false),
+        ("open polyline", vec![p2(0.0, 0.0), p2(4.0, 0.0), p2(4.0, 4.0)], false),
+        ("open single segment", vec![p2(-1.0, 2.0), p2(3.0, -1.0)], false),
+        ("open polyline whose last vertex hangs 0.25 above the middle of its long first edge", vec![p2(0.0, 0.0), p2(10.0, 0.0), p2(10.0, 1.0), p2(5.0, 1.0), p2(5.0, 0.25)], false),
+        ("square closed by force_closed", vec![p2(0.0, 0.0), p2(4.0, 0.0), p2(4.0, 4.0), p2(0.0, 4.0)], true),
+        ("square closed within the tolerance (last vertex 2^-21 off the first)", vec![p2(0.0, 0.0), p2(4.0, 0.0), p2(4.0, 4.0), p2(0.0, 4.0), p2(0.0, (0.5f64).powi(21))], false),
+        ("square with repeated input vertices", vec![p2(0.0, 0.0), p2(4.0, 0.0), p2(4.0, 0.0), p2(4.0, 4.0), p2(0.0, 4.0), p2(0.0, 4.0), p2(0.0, 0.0)], false),
+    ];
+    let dists0 = [0.0, 9e-7, 2e-6, 5e-6, 1e-5, 1e-3, 0.125, 1.0, 100.0, 1e4];
+    for (name, v, fc) in base.iter() { run_curve_family(r, name, v, 1e-6, *fc, &dists0, None); }
+    // the curve's own tolerance is no parameter of a deviation: larger than most offsets, and far smaller than all
+    for &tol in [1e-2, 1e-9].iter() { for (name, v, fc) in base.iter().take(3) { run_curve_family(r, &format!("{} built with tolerance {:e}", name, tol), v, tol, *fc, &dists0, None); } }
+    // moved far from the origin by powers of two (coordinates stay exact) and scaled
+    let dyadic = [(0.5f64).powi(10), 0.0625, 1.0, 64.0];
+    for (name, v, fc) in base.iter().take(9) {
+        for &(ox, oy) in [(1024.0, -1024.0), (1048576.0, 1048576.0), (-134217728.0, 134217728.0)].iter() {
+            let moved: Vec<Point2> = v.iter().map(|q| p2(q.x + ox, q.y + oy)).collect();
+            run_curve_family(r, &format!("{} moved by ({:e}, {:e})", name, ox, oy), &moved, 1e-6, *fc, &dyadic, None);
+        }
+        for &sc in [(0.5f64).powi(10), 1024.0].iter() {
+            let scaled: Vec<Point2> = v.iter().map(|q| p2(q.x * sc, q.y * sc)).collect();
+            let ds: Vec<f64> = [0.015625, 0.0625, 1.0, 64.0].iter().map(|d| d * sc).collect();
+            run_curve_family(r, &format!("{} scaled by {:e}", name, sc), &scaled, 1e-6, *fc, &ds, None);
+        }
+    }
+    // many edges: an open zigzag (i, i mod 2) of 40, 1100 and 5000 edges, sampled at the start, around 32 / 64 / 1024 /
+    // 4096 and at the end
+    for &ne in [40usize, 1100, 5000].iter() {
+        let v: Vec<Point2> = (0..=ne).map(|i| p2(i as f64, (i % 2) as f64)).collect();
+        let mut sample: Vec<usize> = vec![0, 1, 2, ne / 2, ne - 3, ne - 2, ne - 1];
+        for c in [32usize, 64, 1024, 4096] { for k in [c - 1, c, c + 1] { if k + 1 < ne { sample.push(k); } } }
+        sample.sort(); sample.dedup();
+        run_curve_family(r, &format!("open zigzag of {} edges", ne), &v, 1e-6, false, &[1e-3, 0.125, 0.25], Some(&sample));
+    }
+    // interval bounds exactly on the length of a closest station (closed CCW square, lengths 0..16): both ends belong to
+    // the interval, bounds may be given in either order, an empty input gives an empty set
+    {
+        let sq = [p2(0.0, 0.0), p2(4.0, 0.0), p2(4.0, 4.0), p2(0.0, 4.0), p2(0.0, 0.0)];
+        if let Ok(curve) = Curve2::from_points(&sq, 1e-6, false) {
+            let ls = [0.5, 1.5, 2.0, 5.5, 6.0, 9.5, 14.0];
+            let at = |l: f64| -> Point2 { let (k, t) = ((l / 4.0).floor() as usize, l % 4.0); let n = [(0.0, -1.0), (1.0, 0.0), (0.0, 1.0), (-1.0, 0.0)][k]; let e = sq[k + 1] - sq[k]; sq[k] + e * (t / 4.0) + Vector2::new(n.0, n.1) * 0.25 };
+            let pts: Vec<Point2> = ls.iter().map(|&l| at(l)).collect();
+            let cases: [(f64, f64, &[f64]); 8] = [(1.5, 5.5, &[1.5, 2.0, 5.5]), (2.0, 2.0, &[2.0]), (ulp_up(1.5), ulp_down(5.5), &[2.0]), (6.0, 1.5, &[1.5, 2.0, 5.5, 6.0]),
+                (-1.0, 0.5, &[0.5]), (14.0, 100.0, &[14.0]), (ulp_up(14.0), 100.0, &[]), (f64::NEG_INFINITY, f64::INFINITY, &ls)];
+            for (lo, hi, want) in cases.iter() {
+                r.case();
+                let set = line_surface_deviations(&curve, &pts, Some(Interval::new(*lo, *hi)));
+                let got: Vec<f64> = (0..set.len()).map(|i| { let q = set[i].surface.point; if q.y == 0.0 { q.x } else if q.x == 4.0 { 4.0 + q.y } else if q.y == 4.0 { 12.0 - q.x } else { 16.0 - q.y } }).collect();
+                r.check(got == want.to_vec() && (0..set.len()).all(|i| set[i].deviation == 0.25), "line deviations: exactly the points whose closest station lies in the interval are kept (a station exactly on a bound is kept)",
+                        || format!("closed CCW square of side 4, points 0.25 outside at lengths {:?}, interval ({:?}, {:?}): kept lengths {:?}, expected {:?}", ls, lo, hi, got, want));
+            }
+            for iv in [None, Some(Interval::new(0.0, 16.0))] {
+                r.case();
+                let set = line_surface_deviations(&curve, &[], iv);
+                r.check(set.len() == 0 && set.max().is_none() && set.min().is_none() && set.symmetrical_zone_size() == 0.0, "line deviations: no measured points give an empty set", || format!("interval {:?}", iv.map(|i| (i.min, i.max))));
+            }
+        }
+    }
+}
+
+// ------------------------------------------------------------------------------------------------ (f3) mesh deviations: shapes, scales, offsets
+/// closest point of one triangle: foot on its plane when that lies inside, otherwise the nearest point of its three sides
+fn closest_on_triangle5(p: &Point3, a: &Point3, b: &Point3, c: &Point3) -> (Point3, f64, bool, Vector3) {
+    let nv = (b - a).cross(&(c - a));
+    let area2 = nv.norm();
+    let u = nv / area2;
+    let h = (p - a).dot(&u);
+    let q = p - u * h;
+    let e0 = (b - a).cross(&(q - a)).dot(&u);
+    let e1 = (c - b).cross(&(q - b)).dot(&u);
+    let e2 = (a - c).cross(&(q - c)).dot(&u);
+    if e0 >= 0.0 && e1 >= 0.0 && e2 >= 0.0 {
+        return (q, (p - q).norm(), e0.min(e1).min(e2) > 1e-9 * area2, u);
+    }
+    let mut best = (*a, f64::INFINITY);
+    for (s0, s1) in [(a, b), (b, c), (c, a)] {
+        let e = s1 - s0;
+        let t = ((p - s0).dot(&e) / e.dot(&e)).clamp(0.0, 1.0);
+        let f = s0 + e * t;
+        let d = (p - f).norm();
+        if d < best.1 { best = (f, d); }
+    }
+    (best.0, best.1, false, u)
+}
+
+struct ClosestM { point: Point3, dist: f64, /// (foot, unit normal) of every triangle that attains the closest distance (numerically)
+    attain: Vec<(Point3, Vector3)>, interior: bool, unique: bool }
+
+/// brute force over every triangle that can hold the closest point (|p - first corner| <= nearest vertex distance + longest side)
+fn closest_on_mesh5(verts: &[Point3], faces: &[[u32; 3]], max_side: f64, p: &Point3, atol: f64) -> ClosestM {
+    let ub = verts.iter().fold(f64::INFINITY, |m, v| m.min((p - v).norm()));
+    let mut cand: Vec<(Point3, f64, bool, Vector3)> = vec![];
+    for f in faces.iter() {
+        let a = &verts[f[0] as usize];
+        if (p - a).norm() > ub + max_side + 1e-9 + atol { continue; }
+        cand.push(closest_on_triangle5(p, a, &verts[f[1] as usize], &verts[f[2] as usize]));
+    }
+    let mut bi = 0;
+    for i in 0..cand.len() { if cand[i].1 < cand[bi].1 { bi = i; } }
+    let best = cand[bi].1;
+    let unique = (0..cand.len()).filter(|&i| cand[i].1 <= best + 1e-12 + atol + 1e-7 * best).all(|i| (cand[i].0 - cand[bi].0).norm() <= 1e-9 + atol);
+    let attain: Vec<(Point3, Vector3)> = (0..cand.len()).filter(|&i| cand[i].1 <= best + 1e-13 + atol).map(|i| (cand[i].0, cand[i].3)).collect();
+    // interior of a face: the best foot is strictly inside its triangle and every attaining triangle lies in the same plane
+    let interior = cand[bi].2 && attain.iter().all(|(_, n)| (n - cand[bi].3).norm() <= 1e-9);
+    ClosestM { point: cand[bi].0, dist: best, attain, interior, unique }
+}
+
+fn check_mesh_point5(r: &mut Report, name: &str, mesh: &Mesh, max_side: f64, p: &Point3, vmax: f64) {
+    let atol = 16.0 * f64::EPSILON * (vmax + p.coords.amax());
+    let c = closest_on_mesh5(mesh.vertices(), mesh.faces(), max_side, p, atol);
+    if !c.unique { return; }
+    let w = p - c.point;
+    let ptol = 1e-12 + atol + 1e-13 * c.dist;
+    for mode in 0..2 {
+        r.case();
+        let m = if mode == 0 { DistMode::ToPoint } else { DistMode::ToPlane };
+        let Some(dv) = guarded5(|| mesh.measure_point_deviation(p, m)) else { r.check(false, "mesh deviation: the deviation of a finite point is returned (no panic)", || format!("{} point {:?}", name, p.coords.as_slice())); continue; };
+        let u = dv.direction.into_inner();
+        let val = dv.value();
+        let how = || format!("{} ({} triangles), measured point {:?} (closest distance {:e}, closest point {:?}), mode {}: reference {:?}, direction {:?}, value {:?}",
+            name, mesh.faces().len(), p.coords.as_slice(), c.dist, c.point.coords.as_slice(), if mode == 0 { "ToPoint" } else { "ToPlane" }, dv.a.coords.as_slice(), u.as_slice(), val);
+        r.check(c.attain.iter().any(|(q, _)| (dv.a - q).norm() <= ptol), "mesh deviation: the reference point is the closest point of the nominal surface", how);
+        r.check(dv.b == *p, "mesh deviation: the measured point is kept", how);
+        r.check(near(u.norm(), 1.0), "mesh deviation: the direction is a unit vector", how);
+        r.check(near_tol(val, u.dot(&(dv.b - dv.a)), 1e-12 + atol), "mesh deviation: value equals the projection of b-a on the direction", how);
+        let tiny = 1e-11 * c.dist + 4.0 * atol;
+        if mode == 0 {
+            if c.dist < 1e-6 && !c.interior {
+                r.check((val.abs() - c.dist).abs() < 1e-6 + atol, "mesh deviation (point mode): within 1e-6 of a box edge / corner the magnitude is within 1e-6 of the closest distance", how);
+            } else {
+                r.check(near_tol(val.abs(), c.dist, 1e-12 + atol), "mesh deviation (point mode): magnitude equals the closest distance", how);
+                r.check((dv.a + u * val - p).norm() <= ptol + 1e-9 * c.dist, "mesh deviation (point mode): reference + direction * value reconstructs the measured point", how);
+            }
+            if c.attain.iter().all(|(q, n)| n.dot(&(p - q)) > tiny) { r.check(val > 0.0, "mesh deviation (point mode): positive on the outward-normal side", how); }
+            else if c.attain.iter().all(|(q, n)| n.dot(&(p - q)) < -tiny) { r.check(val < 0.0, "mesh deviation (point mode): negative on the inner side", how); }
+        } else {
+            // the triangle whose normal is reported (among those holding the closest point): the offset is taken from its foot
+            let face = c.attain.iter().find(|(q, n)| (n - u).norm() <= 1e-9 && (dv.a - q).norm() <= ptol).or(c.attain.iter().find(|(_, n)| (n - u).norm() <= 1e-9));
+            let on_face = face.is_some();
+            r.check(on_face, "mesh deviation (plane mode): measured along the outward normal at the closest point", how);
+            let side = match face { Some((q, _)) => u.dot(&(p - q)), None => u.dot(&w) };
+            r.check(near_tol(val.abs(), side.abs(), 1e-12 + 2.0 * atol), "mesh deviation (plane mode): magnitude equals the normal component of the offset", how);
+            if on_face && side > tiny { r.check(val > 0.0, "mesh deviation (plane mode): positive on the outward-normal side", how); }
+            if on_face && side < -tiny { r.check(val < 0.0, "mesh deviation (plane mode): negative on the inner side", how); }
+            if c.interior {
+                r.check(near_tol(val.abs(), c.dist, 1e-12 + 2.0 * atol), "mesh deviation (plane mode): off a face interior the normal component is the closest distance", how);
+                r.check((dv.a + u * val - p).norm() <= ptol + 1e-9 * c.dist, "mesh deviation (plane mode): off a face interior reference + direction * value reconstructs the measured point", how);
+            }
+        }
+    }
+}
+
+/// measured points of a mesh: off two interior feet of every listed triangle on both sides; off the middle of each of its
+/// sides diagonally outward / inward, exactly in the triangle's plane and just above / below it; off each of its corners along and against the
+/// triangle normal tilted outward
+fn run_mesh_family(r: &mut Report, name: &str, mesh: &Mesh, dists: &[f64], sample: Option<&[usize]>) {
+    let verts = mesh.vertices(); let faces = mesh.faces();
+    let max_side = faces.iter().fold(0.0f64, |m, f| { let (a, b, c) = (verts[f[0] as usize], verts[f[1] as usize], verts[f[2] as usize]); m.max((b - a).norm()).max((c - b).norm()).max((a - c).norm()) });
+    let vmax = verts.iter().fold(0.0f64, |a, q| a.max(q.coords.amax()));
+    let all: Vec<usize> = (0..faces.len()).collect();
+    let list: &[usize] = match sample { Some(s) => s, None => &all };
+    for &fi in list.iter() {
+        let f = faces[fi];
+        let (a, b, c) = (verts[f[0] as usize], verts[f[1] as usize], verts[f[2] as usize]);
+        let n = (b - a).cross(&(c - a)).normalize();
+        let mut pts: Vec<Point3> = vec![];
+        for wts in [(0.5, 0.25, 0.25), (0.25, 0.25, 0.5)] {
+            let foot = Point3::from(a.coords * wts.0 + b.coords * wts.1 + c.coords * wts.2);
+            for &d in dists.iter() { pts.push(foot + n * d); if d > 0.0 { pts.push(foot - n * d); } }
+        }
+        for (s0, s1) in [(a, b), (b, c), (c, a)] {
+            let mid = Point3::from((s0.coords + s1.coords) * 0.5);
+            let t = (s1 - s0).cross(&n).normalize();
+            for &d in dists.iter() { if d > 0.0 {
+                pts.push(mid + (n + t).normalize() * d); pts.push(mid - (n + t).normalize() * d); pts.push(mid + t * d);
+                // just above / below the triangle's plane, beyond the side (within 1e-7 and 1e-9 of the plane, relative)
+                for eps in [1e-7, 1e-9] { pts.push(mid + (t + n * eps) * d); pts.push(mid + (t - n * eps) * d); }
+            } }
+        }
+        for (k, corner) in [a, b, c].iter().enumerate() {
+            let away = (corner.coords * 3.0 - a.coords - b.coords - c.coords).normalize();
+            for &d in dists.iter() { if d > 0.0 { pts.push(corner + (n + away).normalize() * d); if k == 0 { pts.push(corner - (n + away * 0.5).normalize() * d); } } }
+        }
+        for p in pts.iter() { check_mesh_point5(r, name, mesh, max_side, p, vmax); }
+    }
+}
+
+fn mesh_shapes(r: &mut Report) {
+    let p3 = |x: f64, y: f64, z: f64| Point3::new(x, y, z);
+    let dists0 = [0.0, 9e-7, 2e-6, 5e-6, 1e-5, 1e-3, 0.125, 1.0, 100.0];
+    let tetra_v = vec![p3(0.0, 0.0, 0.0), p3(4.0, 0.0, 0.0), p3(0.0, 3.0, 0.0), p3(0.0, 0.0, 2.0)];
+    let tetra_f: Vec<[u32; 3]> = vec![[0, 2, 1], [0, 1, 3], [0, 3, 2], [1, 2, 3]];
+    let quad_v = vec![p3(0.0, 0.0, 0.0), p3(4.0, 0.0, 0.0), p3(4.0, 3.0, 0.0), p3(0.0, 3.0, 0.0)];
+    let quad_f: Vec<[u32; 3]> = vec![[0, 1, 2], [0, 2, 3]];
+    let quad_down: Vec<[u32; 3]> = vec![[0, 2, 1], [0, 3, 2]];
+    let boxm = Mesh::create_box(2.0, 3.0, 5.0, false);
+    let (box_v, box_f) = (boxm.vertices().to_vec(), boxm.faces().to_vec());
+    let base: Vec<(&str, Vec<Point3>, Vec<[u32; 3]>, bool)> = vec![
+        ("box 2 x 3 x 5", box_v.clone(), box_f.clone(), false),
+        ("box 2 x 3 x 5 (is_solid)", box_v.clone(), box_f.clone(), true),
+        ("tetrahedron (0,0,0) (4,0,0) (0,3,0) (0,0,2)", tetra_v.clone(), tetra_f.clone(), false),
+        ("open rectangle 4 x 3 in z = 0, normal +z", quad_v.clone(), quad_f.clone(), false),
+        ("open rectangle 4 x 3 in z = 0, normal -z", quad_v.clone(), quad_down.clone(), false),
+        ("single triangle (0,0,0) (4,0,0) (0,3,0)", vec![p3(0.0, 0.0, 0.0), p3(4.0, 0.0, 0.0), p3(0.0, 3.0, 0.0)], vec![[0, 1, 2]], false),
+        ("large triangle (0,0,0) (12,0,0) (0,12,0) with a small one hovering 0.25 above its middle", vec![p3(0.0, 0.0, 0.0), p3(12.0, 0.0, 0.0), p3(0.0, 12.0, 0.0), p3(3.0, 3.0, 0.25), p3(3.5, 3.0, 0.25), p3(3.0, 3.5, 0.25)], vec![[0, 1, 2], [3, 4, 5]], false),
+    ];
+    for (name, v, f, solid) in base.iter() {
+        let Some(mesh) = guarded5(|| Mesh::new(v.clone(), f.clone(), *solid)) else { continue; };
+        run_mesh_family(r, name, &mesh, &dists0, None);
+    }
+    {
+        let mesh = Mesh::create_box(4.0, 4.0, 4.0, true);
+        run_mesh_family(r, "box 4 x 4 x 4 (is_solid)", &mesh, &dists0, None);
+    }
+    let dyadic = [(0.5f64).powi(10), 0.0625, 1.0, 64.0];
+    for (name, v, f, solid) in base.iter() {
+        for &(ox, oy, oz) in [(1024.0, -1024.0, 1024.0), (1048576.0, 1048576.0, -1048576.0), (-134217728.0, 134217728.0, 134217728.0)].iter() {
+            let moved: Vec<Point3> = v.iter().map(|q| p3(q.x + ox, q.y + oy, q.z + oz)).collect();
+            let Some(mesh) = guarded5(|| Mesh::new(moved, f.clone(), *solid)) else { continue; };
+            run_mesh_family(r, &format!("{} moved by ({:e}, {:e}, {:e})", name, ox, oy, oz), &mesh, &dyadic, None);
+        }
+        for &sc in [(0.5f64).powi(10), 1024.0].iter() {
+            let scaled: Vec<Point3> = v.iter().map(|q| p3(q.x * sc, q.y * sc, q.z * sc)).collect();
+            let ds: Vec<f64> = [0.015625, 0.0625, 1.0, 64.0].iter().map(|d| d * sc).collect();
+            let Some(mesh) = guarded5(|| Mesh::new(scaled, f.clone(), *solid)) else { continue; };
+            run_mesh_family(r, &format!("{} scaled by {:e}", name, sc), &mesh, &ds, None);
+        }
+    }
+    // many triangles, vertex ids beyond 2^16: a corrugated sheet of 256 x 256 cells (z = 0.5 on odd columns), two
+    // triangles per cell, sampled in the first cells, around cell 32 / 100 / 128 and in the last cells
+    {
+        let n = 256usize;
+        let mut v: Vec<Point3> = Vec::with_capacity((n + 1) * (n + 1));
+        for j in 0..=n { for i in 0..=n { v.push(p3(i as f64, j as f64, 0.5 * (i % 2) as f64)); } }
+        let id = |i: usize, j: usize| (j * (n + 1) + i) as u32;
+        let mut f: Vec<[u32; 3]> = Vec::with_capacity(2 * n * n);
+        for j in 0..n { for i in 0..n { f.push([id(i, j), id(i + 1, j), id(i + 1, j + 1)]); f.push([id(i, j), id(i + 1, j + 1), id(i, j + 1)]); } }
+        if let Some(mesh) = guarded5(|| Mesh::new(v, f, false)) {
+            let mut sample: Vec<usize> = vec![];
+            for &(i, j) in [(0usize, 0usize), (1, 0), (31, 31), (32, 32), (100, 7), (128, 200), (254, 255), (255, 255), (255, 0), (0, 255)].iter() { sample.push(2 * (j * n + i)); sample.push(2 * (j * n + i) + 1); }
+            run_mesh_family(r, "corrugated sheet of 256 x 256 cells", &mesh, &[1e-3, 0.0625, 0.25], Some(&sample));
+        }
+    }
+    // an open faceted cylinder (radius 2, height 4, 64 facets): irrational coordinates, free rims
+    {
+        let mesh = Mesh::create_cylinder(2.0, 4.0, 64);
+        let sample: Vec<usize> = vec![0, 1, 2, 3, 31, 32, 33, 64, 65, 100, 126, 127];
+        run_mesh_family(r, "open cylinder of radius 2, height 4, 64 facets", &mesh, &[1e-3, 0.03125, 0.5], Some(&sample));
+    }
+}
+
 pub fn run() -> Option<Report> {
     let mut r = Report::new("deviation sets: all push histories of length <= 5 over 7 values incl. ties and one-ulp neighbours, from default() and new(prefix); \
 tolerance maps: all ascending tables of length 0..=4 over 5 breakpoints, x at breakpoints, one-ulp neighbours, midpoints, below the start, beyond the end; \
 point clouds: all sequences of <= 3 operations (append / merge / create_from_indices, every presence combination) from 12 starts, try_new over all presence/length combinations; \
 distances on integer points with 9 directions, and with end points offset by 1e3 and 1e6 from the origin (4 offsets in 3D, 3 in 2D) at separations 1e-3, 1e-2, 0.1, 1 along and against 6 (5) unit vectors, measured along the default and 6 (5) given directions, tolerance 1e-12 of the separation; curve / mesh deviations on a square of side 4, an open polyline and a 4x4x4 box at offsets 1e-7, 1e-5, 1e-4, 1e-2, 1 on both sides, off corners and beyond ends; \
-wave 4: deviation sets built by new() from every vector of length 1..=3 over {+-f64::MAX, +-inf, 0, +-1, +-MIN_POSITIVE, +-5e-324} plus one push; breakpoint tables: try_from on every vector of length 0..=4 over 11 values with neighbours one rounding step apart (0.3 / 0.1+0.2, 1 / 1+2^-52, -1 / -1+2^-53, 1e6 / next, 0 / 5e-324 / 1e-17), push histories of length <= 4 over {-1, 0, 0.3, 0.1+0.2, 1, 2, 3, +inf, NaN} from the empty table and from try_from(prefix), every resulting table queried at breakpoints, one-ulp neighbours and midpoints");
+wave 4: deviation sets built by new() from every vector of length 1..=3 over {+-f64::MAX, +-inf, 0, +-1, +-MIN_POSITIVE, +-5e-324} plus one push; breakpoint tables: try_from on every vector of length 0..=4 over 11 values with neighbours one rounding step apart (0.3 / 0.1+0.2, 1 / 1+2^-52, -1 / -1+2^-53, 1e6 / next, 0 / 5e-324 / 1e-17), push histories of length <= 4 over {-1, 0, 0.3, 0.1+0.2, 1, 2, 3, +inf, NaN} from the empty table and from try_from(prefix), every resulting table queried at breakpoints, one-ulp neighbours and midpoints; \
+wave 5: deviation sets of 2 .. 4097 (three patterns: 70000) items in 15 value patterns built five ways, checked after every push; breakpoint tables of 1 .. 4097 values in 9 families (integers, offset 1e6, spacing 2^-40, negative, quadratic, runs of equal values, one-ulp steps, one gap of 1e9, denormals) built by try_from, push and linear, tables of signed zeros, queried at every breakpoint, one-ulp neighbours, midpoints, +-inf, +-f64::MAX; point clouds: try_new with 33 .. 4097 points and 7 x 7 normal / colour lengths, four histories of 1100 steps (accepted and refused appends and merges, merges with a copy of itself, index selections of l and 2l indices, reversed and repeated); distances in 2D and 3D on integer end points scaled by 2^-30, 2^-20, 1, 2^20, 2^27 and offset by 1, 1e3, 1e6, 1e8 at separations 1e-12 .. 1, deviation records at offsets 0, 1e3, 1e6; curve deviations on 12 shapes (CW square, 3-4-5 triangle, rectangle, L-hexagon, hairpin, spur, segment, force_closed, closed within tolerance, repeated vertices, tolerances 1e-2 / 1e-9) at offsets 0, 9e-7, 2e-6, 5e-6, 1e-5, 1e-3, 1/8, 1, 100, 1e4 off two feet per edge and in 30 directions around every vertex (4 exactly tangent, 16 within 1e-7 / 1e-9 of a tangent), the shapes moved by 2^10, 2^20, 2^27 and scaled by 2^-10, 2^10, open zigzags of 40 / 1100 / 5000 edges, interval bounds exactly on a station length; mesh deviations (both modes) on box 2x3x5 (is_solid false / true), box 4x4x4 is_solid, tetrahedron, open 4x3 rectangle of both windings, single triangle, large triangle with a small one hovering above, the same moved by 2^10, 2^20, 2^27 and scaled by 2^-10, 2^10, a corrugated sheet of 256 x 256 cells (131072 triangles), an open cylinder of 64 facets; brute-force closest-point oracles, measured points without a unique closest point skipped");
     deviation_sets(&mut r);
     tolerance_maps(&mut r);
     // the real code is called under catch_unwind in the wave-4 groups: keep the default hook from printing one message per caught panic
@@ -863,5 +1743,15 @@ wave 4: deviation sets built by new() from every vector of length 1..=3 over {+-
     far_distances(&mut r);
     curve_deviations(&mut r);
     mesh_deviations(&mut r);
+    // wave 5: the real code is called under catch_unwind (guarded5) where a mutant may panic; panics outside stay loud
+    let default_hook = std::panic::take_hook();
+    std::panic::set_hook(Box::new(move |info| { if !QUIET_PANICS.load(std::sync::atomic::Ordering::SeqCst) { default_hook(info); } }));
+    long_deviation_sets(&mut r);
+    long_breakpoint_tables(&mut r);
+    large_point_clouds(&mut r);
+    scaled_and_offset_distances(&mut r);
+    curve_shapes(&mut r);
+    mesh_shapes(&mut r);
+    let _ = std::panic::take_hook();
     Some(r)
 }
